@@ -1148,10 +1148,15 @@ class TokenizerCore:
                 # no backslash in the string that would need escape processing
                 and (not (unescaped_sequences or "\\" in escapes) or sql.find("\\", pos, end) == -1)
             ):
-                newlines = sql.count("\n", pos, end)
+                # Line breaks are counted like _advance does: \n, \r and \r\n each end one line
+                newlines = (
+                    sql.count("\n", pos, end)
+                    + sql.count("\r", pos, end)
+                    - sql.count("\r\n", pos, end)
+                )
                 if newlines:
                     self._line += newlines
-                    self._col = end - sql.rfind("\n", pos, end)
+                    self._col = end - max(sql.rfind("\n", pos, end), sql.rfind("\r", pos, end))
                 else:
                     self._col += end - pos
 
